@@ -241,7 +241,8 @@ char* SoPlex_getPrimalRationalString(void* soplex, int dim)
 
    so->getPrimalRational(primal);
 
-   for(int i = 0; i < dim; ++i)
+   // getPrimalRational() resizes the vector to the number of columns
+   for(int i = 0; i < dim && i < primal.dim(); ++i)
    {
       primalstring.append(primal[i].str());
       primalstring.append(" ");
